@@ -7,6 +7,8 @@
 
 package getbytes
 
+//@ bounded C14 C05 C20 TestVerifBoundedGetbytes : the trusted contracts of all 20 helpers compared with the arithmetic definition of lebyte on 2014 scalar values each and slices of length 0..17 (bounded, not proved)
+
 // lebyte(x, j): byte j (0 = least significant) of the little-endian two's-complement / unsigned
 // encoding of x.  It is an uninterpreted function in most proofs (they only need to know WHICH value
 // is encoded WHERE); its arithmetic definition is the assumed lemma lebyte_def (used by C14).
